@@ -63,6 +63,58 @@ pub fn inside(buf: &[u8], p: *const u8, len: usize) -> bool {
 #[derive(Debug, Clone, Copy, PartialEq, Eq)]
 pub struct NilU8(pub Option<u8>);
 
+/// A type whose own impls write an unsigned integer and accept either an integer or a one-element array; fields of
+/// this type carry a custom codec for ONE direction only (`encode_with` alone writes the array form, `decode_with`
+/// alone reads both forms), so the derived code has to combine a custom function with the type's own impl.
+#[derive(Debug, Clone, PartialEq)]
+pub struct Flex(pub u8);
+
+pub mod flex {
+    use super::*;
+
+    pub fn encode_arr<C, W: Write>(v: &Flex, e: &mut Encoder<W>, _: &mut C) -> Result<(), encode::Error<W::Error>> {
+        e.array(1)?.u8(v.0)?.ok()
+    }
+
+    pub fn cbor_len_arr<C>(v: &Flex, ctx: &mut C) -> usize {
+        1 + v.0.cbor_len(ctx)
+    }
+
+    pub fn decode_any<'b, C>(d: &mut Decoder<'b>, _: &mut C) -> Result<Flex, decode::Error> {
+        use minicbor::data::Type;
+        match d.datatype()? {
+            Type::Array | Type::ArrayIndef => {
+                let p = d.position();
+                let mut it = d.array_iter::<u8>()?;
+                let x = it.next().ok_or_else(|| decode::Error::message("flex: empty array").at(p))??;
+                if it.next().is_some() {
+                    return Err(decode::Error::message("flex: more than one element").at(p));
+                }
+                Ok(Flex(x))
+            }
+            _ => d.u8().map(Flex),
+        }
+    }
+}
+
+impl<C> Encode<C> for Flex {
+    fn encode<W: Write>(&self, e: &mut Encoder<W>, _: &mut C) -> Result<(), encode::Error<W::Error>> {
+        e.u8(self.0)?.ok()
+    }
+}
+
+impl<'b, C> Decode<'b, C> for Flex {
+    fn decode(d: &mut Decoder<'b>, ctx: &mut C) -> Result<Self, decode::Error> {
+        flex::decode_any(d, ctx)
+    }
+}
+
+impl<C> CborLen<C> for Flex {
+    fn cbor_len(&self, ctx: &mut C) -> usize {
+        self.0.cbor_len(ctx)
+    }
+}
+
 pub mod nilu8 {
     use super::*;
 
